@@ -113,11 +113,12 @@ BreakLike(nd, kind) ==
 EvalLeaf ==
   LET f == Top  nd == P[f.i] IN
   /\ mode = "eval" /\ f.kind = "node"
-  /\ nd.t \in {"M", "X", "T", "S", "brk", "cont", "kc", "ret", "exit", "seto", "us", "fe", "trapx", "trape", "trapr", "execx"}
+  /\ nd.t \in {"M", "X", "T", "S", "L", "brk", "cont", "kc", "ret", "exit", "seto", "us", "fe", "trapx", "trape", "trapr", "execx"}
   /\ CASE nd.t = "M"    -> Deliver(R(nd.m, "n", 0), f.sup, Append(out, <<"m", f.i, Cur.st>>), sh)
        [] nd.t = "X"    -> Deliver(R(nd.m, "n", 0), f.sup, Append(out, <<"x", f.i>>), sh)
        [] nd.t = "T"    -> Deliver(R(Cur.st, "n", 0), f.sup, Append(out, <<"t", f.i, Cur.st>>), sh)
        [] nd.t = "S"    -> Deliver(R(nd.m, "n", 0), f.sup, out, sh)
+       [] nd.t = "L"    -> Deliver(R(0, "n", 0), f.sup, Append(out, <<"l", f.i>>), sh)      \* `echo "l<i>:$LINENO"` (C15: the line is the renderer's)
        [] nd.t = "brk"  -> Deliver(BreakLike(nd, "b"), f.sup, out, sh)
        [] nd.t = "cont" -> Deliver(BreakLike(nd, "c"), f.sup, out, sh)
        [] nd.t = "kc"   ->            \* `K i && continue n` : continue on the first visit only
